@@ -19,6 +19,7 @@ RULE = (
     "moving parent) are evaluated by both models.  non-trivial = >=2 chains of different topology and a final particle with "
     "J>0; distinct = card structure key + variant."
 )
+RULE += '  Also: a share of the cards with other registered decay models (helicity_full, helicity_parity, gls-bf).'
 ASSUMPTIONS = [
     "unpolarised parent; default (Wigner-rotation aware, r_boost) alignment",
     "pairs whose parameter-name sets differ are not comparable and are skipped, not failed",
